@@ -1,6 +1,6 @@
 """Property -> rules."""
 from .prog import Program
-from . import rules_cg, lalr, rules_dispatch, rules_wrap, rules_mem, rules_state
+from . import rules_cg, lalr, rules_dispatch, rules_wrap, rules_mem, rules_state, rules_dstr
 
 _progs = {}
 
@@ -50,7 +50,13 @@ def c01(chk, tier):
     rules_mem.r_init(P(), chk)
 
 
+def c19(chk, tier):
+    chk.explanation = "Static: R-DSTR ensure-before-write, re-termination, clamping, -1 forms, who-may-write."
+    rules_dstr.r_dstr(P(), chk)
+
+
 PROPS = {
+    "C19": ("other", c19),
     "C01": ("other", c01),
     "C06": ("other", c06),
     "C04": ("other", c04),
